@@ -577,4 +577,21 @@ def lcCheckStates (t1 t2 : STab) (validate : Bool) : Except Err (Bool × List Ga
           | .ok false => .error .warning
         else .ok (true, total)
 
+/-- `lc_check(state1, graph2, validate)`: the second argument is a graph (`state_to_graph` returns it unchanged with an empty
+    gate list and the tableau of `get_stabilizer_tableau_from_graph`) -/
+def lcCheckStateGraph (t1 : STab) (g2 : BMat) (validate : Bool) : Except Err (Bool × List Gate) :=
+  match S2G.stateToGraph t1 with
+  | .error e => .error e
+  | .ok (g1, G1) =>
+    match converterGateListR g1 g2 with
+    | .error _ => .ok (false, [])
+    | .ok (L, _) =>
+      let total := G1 ++ L.map toGate
+      if validate then
+        match S2G.sameStabilizerState (t1.runCircuit total) (graphSTab g2.r g2.f) with
+        | .error e => .error e
+        | .ok true => .ok (true, total)
+        | .ok false => .error .warning
+      else .ok (true, total)
+
 end Graphiq.LC
